@@ -253,6 +253,26 @@ def r01_5(ctx, repo):
                                 U(t) == a.targets[0].id for t in b.targets))
                         == 1}
 
+            # ... or that the loop header pairs with the selectors:
+            # `for k, (em, mask, ..) in enumerate(zip(.., self._obs_masks))`
+            it = loop.iter
+            tg = loop.target
+            if isinstance(it, ast.Call) and U(it.func) == 'enumerate' \
+                    and it.args and isinstance(tg, ast.Tuple) and len(
+                        tg.elts) == 2:
+                it, tg = it.args[0], tg.elts[1]
+            if isinstance(it, ast.Name):
+                d_ = [a for a in ast.walk(fn) if isinstance(a, ast.Assign)
+                      and len(a.targets) == 1 and U(a.targets[0]) == it.id]
+                if len(d_) == 1:
+                    it = d_[0].value
+            if isinstance(it, ast.Call) and U(it.func) == 'zip' and \
+                    isinstance(tg, ast.Tuple) and len(tg.elts) == len(
+                        it.args):
+                for a_, t_ in zip(it.args, tg.elts):
+                    if U(a_) == SEL and isinstance(t_, ast.Name):
+                        selnames.add(t_.id)
+
             def kind(e):
                 if isinstance(e, ast.Name):
                     return state.get(e.id)
